@@ -249,6 +249,8 @@ pub struct ScriptedFault {
     /// (or, for setup sites, from the start).
     pub nth: u32,
     pub errno: i32,
+    /// Fire in the run phase (after the channel is connected) or in the setup phase.
+    pub run_phase: bool,
 }
 
 #[derive(Debug, Clone, PartialEq, Eq, Default)]
@@ -265,6 +267,28 @@ pub struct FaultCfg {
     pub addr_in_use_pm: u32,
     pub tick_base_ns: u64,
     pub tick_jitter_ns: u64,
+}
+
+/// Shape of the synthetic rounds of a run (C05 / C10 / C15 "synthetic round sequences").
+#[derive(Debug, Clone, Copy, PartialEq, Eq)]
+pub struct SynthCfg {
+    pub rounds: u32,
+    /// Largest number of ttl positions in a round.
+    pub max_len: u8,
+    /// 0: sub-microsecond, 1: typical (10 us .. 300 ms), 2: 0 .. 10 s with exact extremes, 3: constant
+    pub rtt_regime: u8,
+    /// Number of alternative responder addresses per ttl (flows).
+    pub addr_pool: u8,
+    /// Weights of complete / awaited / failed for one position.
+    pub w_complete: u32,
+    pub w_awaited: u32,
+    pub w_failed: u32,
+    /// Per-mille chance of a skipped slot before a position (TCP re-issue).
+    pub skipped_pm: u32,
+    /// Per-mille chance that a round is cut short (path shrinks).
+    pub shrink_pm: u32,
+    /// Take a snapshot after every round (oracles that follow the state round by round).
+    pub dense: bool,
 }
 
 /// A systematic corruption applied to every ICMP datagram the network delivers (C04 sweep).
@@ -295,6 +319,9 @@ pub struct Scenario {
     /// every probe up to the target to be sent and answered: every round outside a route
     /// change must find the target at its true distance.
     pub epoch_liveness: bool,
+    /// Synthetic round source: the rounds are drawn from the tape and applied to the real
+    /// tracer state through its round handler; the strategy and the network do not run.
+    pub synth: Option<SynthCfg>,
 }
 
 fn layout_json(l: &ErrorLayout) -> Value {
@@ -363,7 +390,7 @@ impl Scenario {
             "inject": format!("{:?}", self.inject),
             "faults": {
                 "sock_pm": self.faults.sock_pm,
-                "scripted": self.faults.scripted.iter().map(|s| format!("{:?}#{} errno {}", s.site, s.nth, s.errno)).collect::<Vec<_>>(),
+                "scripted": self.faults.scripted.iter().map(|s| format!("{:?}#{} errno {} ({})", s.site, s.nth, s.errno, if s.run_phase { "run" } else { "setup" })).collect::<Vec<_>>(),
                 "stall_pm": self.faults.stall_pm,
                 "stall_max_ns": self.faults.stall_max_ns,
                 "addr_in_use_pm": self.faults.addr_in_use_pm,
@@ -372,6 +399,7 @@ impl Scenario {
             },
             "stable": self.stable,
             "mutation": self.mutation.map(|m| format!("{m:?}")),
+            "synthetic_rounds": self.synth.map(|m| format!("{m:?}")),
         })
     }
 }
